@@ -3,5 +3,5 @@ use super::dmlengine::{run_prop, Focus};
 use crate::Args;
 
 pub fn run(a: &Args) -> i32 {
-    run_prop(a, "C05", Focus::Dml, "generated histories (1-2 tables with/without integer PK, typed columns, optional secondary index; <= 40 statements: single/multi-row INSERT with optional column list and RETURNING, UPDATE/DELETE with point or generated predicates incl. keys already deleted, TRUNCATE, occasional transactions) executed on TurDB and on the relational model; after every statement rows_affected / RETURNING bag / full table bags / COUNT(*) are compared. distinct_nontrivial = distinct histories with more than 8 executed statements")
+    run_prop(a, "C05", Focus::Dml, "generated histories (1-2 tables with/without integer PK, optional AUTO_INCREMENT, typed columns, per-history strata: DEFAULTs incl. negative ones and explicit NULLs, plain/UNIQUE/two-column secondary indexes, text of 900-1100 / ~4000 / ~5000 bytes around the 1000-byte TOAST threshold, transactions; every sixth history uses the constraint-heavy FK schemas of C09) of <= 40 statements: single/multi-row INSERT with optional column list and RETURNING, re-insert of deleted keys, UPDATE (literals, col+k, col=other col, key columns) and DELETE with point predicates on live / already deleted / never present keys, ranges, IS NULL and generated predicates, DELETE without WHERE followed by INSERTs, TRUNCATE. Executed statement by statement on TurDB and on the relational model; compared after every statement: ok-vs-error, rows_affected, RETURNING bag, every table's bag, COUNT(*) vs visible rows, and that rows deleted earlier do not reappear. Every violation is minimised (statement list, rows, SET items, WHERE, column list, schema attributes and columns) before it is signed. distinct_nontrivial = distinct histories with more than 8 executed statements")
 }
